@@ -282,7 +282,7 @@ AnyBad(U, sels) ==
      \/ sels[i].k # "spread" /\ AnyBad(U, sels[i].sels)
 DocRejected(U, doc, dv) ==
   \/ \E i \in DOMAIN doc.ops : AnyBad(U, doc.ops[i].sels)
-  \/ \E i \in DOMAIN doc.frags : AnyBad(U, doc.frags[i].sels)
+  \/ \E i \in DOMAIN doc.frags : AnyBad(U, doc.frags[i].sels) \/ doc.frags[i].bad # ""
   \/ "FragDefUndefinedCond" \notin dv /\ \E i \in DOMAIN doc.frags : ~HasType(U, doc.frags[i].cond)
 
 Response(U, doc, opName, given, dv) ==
